@@ -312,39 +312,6 @@ example :
 
 /-! ## Subtree cuts and cached failures -/
 
-theorem firstZone_spec (H : Bytes → UInt64) (fs : FStore) (qclass : UInt16) (zs : List Bytes) (f : FEntry)
-    (h : firstZone H fs qclass zs = some f) :
-    f.active = true ∧ f.kind = FKind.zone ∧ f.qclass = qclass ∧ f.name ∈ zs := by
-  induction zs with
-  | nil => simp [firstZone] at h
-  | cons z t ih =>
-    unfold firstZone at h
-    cases hl : loadZone H fs z qclass with
-    | none =>
-      simp only [hl] at h
-      obtain ⟨a, b, c, d⟩ := ih h
-      exact ⟨a, b, c, List.mem_cons_of_mem _ d⟩
-    | some e =>
-      simp only [hl] at h
-      by_cases ha : e.active = true
-      · simp only [ha, if_true, Option.some.injEq] at h
-        subst h
-        unfold loadZone at hl
-        cases hs : fs (failureZoneHash H z qclass) with
-        | none => simp [hs] at hl
-        | some e' =>
-          simp only [hs] at hl
-          split at hl
-          · rename_i hc
-            simp only [Option.some.injEq] at hl
-            subst hl
-            simp only [Bool.and_eq_true, beq_iff_eq] at hc
-            exact ⟨ha, hc.1.1, hc.2, by rw [hc.1.2]; exact List.mem_cons_self⟩
-          · cases hl
-      · simp only [ha] at h
-        obtain ⟨a, b, c, d⟩ := ih h
-        exact ⟨a, b, c, List.mem_cons_of_mem _ d⟩
-
 /-- what a cached failure may be served for. -/
 def FailOK (name : Bytes) (qtype qclass : UInt16) (cd : Bool) (scope : Scope) (f : FEntry) : Prop :=
   f.active = true ∧
@@ -390,37 +357,6 @@ theorem route_identity_failureLookup (H : Bytes → UInt64) (fs : FStore) (name 
     · simp only [ha] at h
       exact zone f h
 
-theorem firstZoneWire_spec (H : Bytes → UInt64) (fs : FStore) (qclass : UInt16) (zs : List Bytes) (f : FEntry)
-    (h : firstZoneWire H fs qclass zs = some f) :
-    f.active = true ∧ f.kind = FKind.zone ∧ f.qclass = qclass ∧
-      ∃ z ∈ zs, ∃ pz, present z = some pz ∧ foldName pz = foldName f.name := by
-  induction zs with
-  | nil => simp [firstZoneWire] at h
-  | cons z t ih =>
-    have tail : firstZoneWire H fs qclass t = some f →
-        f.active = true ∧ f.kind = FKind.zone ∧ f.qclass = qclass ∧
-          ∃ z' ∈ z :: t, ∃ pz, present z' = some pz ∧ foldName pz = foldName f.name := by
-      intro hg
-      obtain ⟨a, b, c, z', hz', rest⟩ := ih hg
-      exact ⟨a, b, c, z', List.mem_cons_of_mem _ hz', rest⟩
-    unfold firstZoneWire at h
-    cases hk : keyWirePreimage z 6 qclass false with
-    | none => simp only [hk] at h; exact tail h
-    | some pre =>
-      simp only [hk] at h
-      cases hs : fs (H pre ^^^ failureZoneHashSalt) with
-      | none => simp only [hs] at h; exact tail h
-      | some e =>
-        simp only [hs] at h
-        split at h
-        · rename_i hc
-          simp only [Option.some.injEq] at h
-          subst h
-          simp only [Bool.and_eq_true, beq_iff_eq] at hc
-          obtain ⟨p, hp, hf⟩ := (wireNameEq_iff' z e.name).mp hc.1.2
-          exact ⟨hc.2, hc.1.1.1, hc.1.1.2, z, List.mem_cons_self, p, hp, hf⟩
-        · exact tail h
-
 /-- what the wire failure lookup may serve. -/
 def WireFailOK (w : Bytes) (qtype qclass : UInt16) (cd : Bool) (f : FEntry) : Prop :=
   f.active = true ∧
@@ -460,33 +396,6 @@ theorem route_identity_failureLookupWire (H : Bytes → UInt64) (fs : FStore) (w
       · simp only [hcond] at h
         exact zone f h
 
-theorem firstCut_spec (cs : List Cut) (qclass : UInt16) (cands : List Bytes) (c : Cut)
-    (h : firstCut cs qclass cands = some c) :
-    c ∈ cs ∧ c.active = true ∧ c.qclass = qclass ∧ c.name ∈ cands := by
-  induction cands with
-  | nil => simp [firstCut] at h
-  | cons cand t ih =>
-    have tail : firstCut cs qclass t = some c →
-        c ∈ cs ∧ c.active = true ∧ c.qclass = qclass ∧ c.name ∈ cand :: t := by
-      intro hg
-      obtain ⟨a, b, c', d⟩ := ih hg
-      exact ⟨a, b, c', List.mem_cons_of_mem _ d⟩
-    unfold firstCut at h
-    cases hf : findCut cs cand qclass with
-    | none => simp only [hf] at h; exact tail h
-    | some k =>
-      simp only [hf] at h
-      by_cases ha : k.active = true
-      · simp only [ha, if_true, Option.some.injEq] at h
-        subst h
-        unfold findCut at hf
-        have hm := List.mem_of_find?_eq_some hf
-        have hp := List.find?_some hf
-        simp only [Bool.and_eq_true, beq_iff_eq] at hp
-        exact ⟨hm, ha, hp.2, by rw [hp.1]; exact List.mem_cons_self⟩
-      · simp only [ha] at h
-        exact tail h
-
 /-- **Subtree-cut lookup** (`nxDomainCutCache.lookup`): only a cut recorded for
 the question's own name or one of its ancestors (label boundaries, escapes
 honoured), in the same class. -/
@@ -497,37 +406,6 @@ theorem route_identity_cutLookup (cs : CutStore) (name : Bytes) (qclass : UInt16
   split at h
   · cases h
   · exact firstCut_spec _ _ _ _ h
-
-theorem firstCutWire_spec (H : Bytes → UInt64) (byHash : UInt64 → Option Cut) (qclass : UInt16) (cands : List Bytes)
-    (c : Cut) (h : firstCutWire H byHash qclass cands = some c) :
-    c.active = true ∧ c.qclass = qclass ∧
-      ∃ z ∈ cands, ∃ pz, present z = some pz ∧ foldName pz = foldName c.name := by
-  induction cands with
-  | nil => simp [firstCutWire] at h
-  | cons cand t ih =>
-    have tail : firstCutWire H byHash qclass t = some c →
-        c.active = true ∧ c.qclass = qclass ∧
-          ∃ z ∈ cand :: t, ∃ pz, present z = some pz ∧ foldName pz = foldName c.name := by
-      intro hg
-      obtain ⟨a, b, z, hz, rest⟩ := ih hg
-      exact ⟨a, b, z, List.mem_cons_of_mem _ hz, rest⟩
-    unfold firstCutWire at h
-    cases hk : keyWirePreimage cand 0 qclass false with
-    | none => simp only [hk] at h; exact tail h
-    | some pre =>
-      simp only [hk] at h
-      cases hs : byHash (H pre ^^^ nxDomainCutHashSalt) with
-      | none => simp only [hs] at h; exact tail h
-      | some k =>
-        simp only [hs] at h
-        split at h
-        · rename_i hc
-          simp only [Option.some.injEq] at h
-          subst h
-          simp only [Bool.and_eq_true, beq_iff_eq] at hc
-          obtain ⟨p, hp, hf⟩ := (wireNameEq_iff' cand k.name).mp hc.1.2
-          exact ⟨hc.2, hc.1.1.1, cand, List.mem_cons_self, p, hp, hf⟩
-        · exact tail h
 
 /-- **Subtree-cut lookup on the wire** (`lookupWire`): whatever the hash index
 returns is re-verified — class and the denied name against a suffix of the
@@ -732,11 +610,6 @@ theorem replacement_keeps_partition (s : AStore) (key : UInt64) (expected : Entr
       exact AStore.get_set_other _ _ _ _ hk
     · simp [hc]
 
-theorem mem_remove (s : AStore) (k : UInt64) (p : UInt64 × Entry) :
-    p ∈ s.remove k ↔ p ∈ s ∧ p.1 ≠ k := by
-  unfold AStore.remove
-  simp [List.mem_filter]
-
 /-- **What `Purge` may remove, exactly.**  With `k0`/`k1` the two shared keys of
 the purged question and `EF` the comparator of the scoped sweep
 (`strings.EqualFold`): a stored pair survives iff it is under neither shared key
@@ -825,6 +698,62 @@ example :
     let s : AStore := [(key a0, a0), (key a1, a1), (key a2, a2), (key b0, b0), (key b2, b2)]
     (purgeAnswers Hh (fun x y => foldName x == foldName y) s [0x61, 0x2E] 1 1).map (·.2.id) = [4, 5] := by
   decide
+
+/-- **`FailureCache.PurgeQuestion` is exact**: it removes the question-kind states of
+exactly the purged (canonical) name, type and class — every CD/ECS variant — and a zone
+state owned by that name and class; nothing else. -/
+theorem purge_failures_exact (s : AFStore) (name : Bytes) (qtype qclass : UInt16) (p : UInt64 × FEntry) :
+    p ∈ purgeFailures s name qtype qclass ↔
+      p ∈ s ∧ ¬(p.2.name = canonicalName name ∧ p.2.qclass = qclass ∧
+        (p.2.kind = FKind.zone ∨ p.2.qtype = qtype)) := by
+  unfold purgeFailures
+  obtain ⟨k, e⟩ := p
+  simp only [List.mem_filter]
+  cases hk : e.kind <;> simp
+  · intro _
+    by_cases h1 : e.name = canonicalName name <;> by_cases h2 : e.qtype = qtype <;>
+      by_cases h3 : e.qclass = qclass <;> simp [h1, h2, h3]
+  · intro _
+    by_cases h1 : e.name = canonicalName name <;> by_cases h3 : e.qclass = qclass <;> simp [h1, h3]
+
+/-- **The cut purge is exact**: it removes the cuts whose denied name is the purged name or
+one of its ancestors (label-wise) in the purged class; nothing else. -/
+theorem purge_cuts_exact (cs : List Cut) (name : Bytes) (qclass : UInt16) (c : Cut) :
+    c ∈ purgeCuts cs name qclass ↔
+      c ∈ cs ∧ ¬(c.name ∈ cutSuffixes (canonicalName name) ∧ c.qclass = qclass) := by
+  unfold purgeCuts
+  simp [List.mem_filter]
+  intro _
+  by_cases h1 : c.name ∈ cutSuffixes (canonicalName name) <;> by_cases h2 : c.qclass = qclass <;> simp [h1, h2]
+
+/-- **`FailureCache.ResetQuestion` only deletes its own question**: a state disappears
+only if it sits under the hash of the (canonical name, type, class, CD, audience) being
+reset AND carries exactly that identity — a colliding state of another question stays. -/
+theorem reset_question_exact (H : Bytes → UInt64) (s : AFStore) (name : Bytes) (qtype qclass : UInt16) (cd : Bool)
+    (scope : Scope) (p : UInt64 × FEntry) (hp : p ∈ s) (hgone : p ∉ resetQuestion H s name qtype qclass cd scope) :
+    p.1 = failureQuestionHash H (canonicalName name) qtype qclass cd (normalizeKeyScope scope) ∧
+      ∃ e, s.get p.1 = some e ∧ e.kind = FKind.question ∧ e.name = canonicalName name ∧ e.qtype = qtype ∧
+        e.qclass = qclass ∧ e.cd = cd ∧ e.scope = normalizeKeyScope scope := by
+  unfold resetQuestion at hgone
+  simp only at hgone
+  cases hl : loadQuestion H s.get (canonicalName name) qtype qclass cd (normalizeKeyScope scope) with
+  | none => simp [hl] at hgone; exact absurd hp hgone
+  | some e =>
+    simp only [hl, List.mem_filter, hp, true_and, bne_iff_ne, ne_eq, Decidable.not_not] at hgone
+    refine ⟨hgone, e, ?_⟩
+    unfold loadQuestion at hl
+    rw [hgone]
+    cases hs : s.get (failureQuestionHash H (canonicalName name) qtype qclass cd (normalizeKeyScope scope)) with
+    | none => simp [hs] at hl
+    | some e' =>
+      simp only [hs] at hl
+      split at hl
+      · rename_i hc
+        simp only [Option.some.injEq] at hl
+        subst hl
+        simp only [Bool.and_eq_true, beq_iff_eq, decide_eq_true_eq] at hc
+        exact ⟨rfl, hc.1.1.1.1.1, hc.1.1.1.1.2, hc.1.1.1.2, hc.1.1.2, hc.1.2, hc.2⟩
+      · cases hl
 
 /-! ## Facts regenerated from the tree -/
 
